@@ -116,7 +116,7 @@ func verifDumpJSON(v interface{}) string {
 	}
 	s := "pinCPU=" + p2s(o.PinCPU) + " pinMemory=" + p2s(o.PinMemory) + " idle=" + o.IdleCpuClass
 	s += " avail=" + string(o.AvailableResources[cfgapi.CPU]) + " reserved=" + string(o.ReservedResources[cfgapi.CPU])
-	s += " nsres=" + strconv.Itoa(len(o.ReservedPoolNamespaces))
+	s += " nsres=" + strconv.Itoa(len(o.ReservedPoolNamespaces)) + " loadClasses=" + strconv.Itoa(len(o.LoadClasses))
 	for _, d := range o.BalloonDefs {
 		s += " {" + d.Name + " class=" + d.CpuClass + " cpus=" + strconv.Itoa(d.MinCpus) + ".." + strconv.Itoa(d.MaxCpus) +
 			" balloons=" + strconv.Itoa(d.MinBalloons) + ".." + strconv.Itoa(d.MaxBalloons) + " share=" + string(d.ShareIdleCpusInSame) +
@@ -125,6 +125,12 @@ func verifDumpJSON(v interface{}) string {
 			" groupBy=" + d.GroupBy + " exprs=" + strconv.Itoa(len(d.MatchExpressions))
 		for _, ns := range d.Namespaces {
 			s += " ns:" + ns
+		}
+		for _, l := range d.Loads {
+			s += " load:" + l
+		}
+		for _, m := range d.MemoryTypes {
+			s += " mem:" + m
 		}
 		s += "}"
 	}
